@@ -348,6 +348,7 @@ class RRTRun:
     # ---- running invariant ---------------------------------------------------------
     def _on_place(self, node):
         p = pos6(node.getPosition())
+        self.log.add("place", p)
         if getattr(self, "_cur_sample", None) == p and self._cur_units and len(self._cur_units) == 6:
             self.accepted_units.append(self._cur_units)
         self.node_list.append(p)
@@ -442,19 +443,26 @@ class RRTRun:
         accepted = []
         kmax = cfg["k"]
         classes = self.transitions
+        have_place = any(ev[0] == "place" for ev in self.log.events)
         for s, evs in segs:
             acc = False
             n0 = None
             d0 = None
-            if evs and evs[0][0] == "dist" and evs[0][1] == s:
-                n0, d0 = evs[0][2], evs[0][3]
-                if len(evs) > 1 and evs[1][0] == "coll" and evs[1][1] == s and evs[1][2] == n0 and evs[1][3] is False:
-                    acc = True
+            placed = any(e[0] == "place" and e[1] == s for e in evs)
+            evs = [e for e in evs if e[0] != "place"]
+            if evs and evs[0][0] in ("dist", "coll") and evs[0][1] == s:
+                # the node this sample was tested against first (whatever the order of the two tests)
+                n0 = evs[0][2]
+                d0 = next((e[3] for e in evs if e[0] == "dist" and e[2] == n0), None)
+            if have_place:
+                # the planner inserted this sample (observed at the index's place()): that is what "accepted" means
+                acc = placed and n0 is not None
+                if placed and n0 is None:
+                    raise Violation("T5", "sample %r was inserted without being measured against any tree node" % (s,), {})
+            elif evs and evs[0][0] == "dist" and len(evs) > 1 and evs[1][0] == "coll" and evs[1][1] == s \
+                    and evs[1][2] == n0 and evs[1][3] is False:
+                acc = True          # fallback when insertion bypasses R6Tree.place: read acceptance from the call log
             if not acc:
-                if s in bypos and s not in tree and not any(e[0] == "coll" and e[3] is False for e in evs):
-                    # it is in the final tree although no free collision check on its first edge was ever logged
-                    if s not in [a for a in accepted]:
-                        pass
                 if d0 is not None:
                     if d0 > cfg["max"]:
                         P["rejected_for_max"] += 1
@@ -484,11 +492,9 @@ class RRTRun:
             if not (cfg["min"] <= dd <= cfg["max"]):
                 raise Violation("T5", "accepted sample %r lies at distance %r from its then-nearest node, outside [%r, %r]" % (
                     s, dd, cfg["min"], cfg["max"]), {"d": dd})
-            if self.pure_coll(s, n0):
-                raise Violation("T4", "accepted sample %r: edge to then-nearest %r collides" % (s, n0), {})
             # examined set
             examined = []
-            for ev in evs[2:]:
+            for ev in evs:
                 if ev[1] != s:
                     raise Violation("T6", "call-back invoked for %r while inserting %r" % (ev[1], s), {})
                 if ev[2] not in examined:
@@ -512,8 +518,10 @@ class RRTRun:
             if kmax > len(tree):
                 P["k_exceeds_tree_size"] += 1
             # cheapest free candidate
-            best = cost[n0] + dd
-            best_c = [n0]
+            # (the then-nearest node is one of the examined; the statement does not say that the edge to it is
+            #  free -- only that the final parent link is -- so it competes like every other candidate)
+            best = None
+            best_c = []
             any_collided = False
             for c in examined:
                 v = cost[c] + self.pure_dist(s, c)
@@ -521,10 +529,12 @@ class RRTRun:
                 if v < cost[n0] + dd and not free:
                     any_collided = True
                 if free:
-                    if v < best - REL * max(1.0, abs(best)):
+                    if best is None or v < best - REL * max(1.0, abs(best)):
                         best, best_c = v, [c]
                     elif abs(v - best) <= REL * max(1.0, abs(best)):
                         best_c.append(c)
+            if best is None:
+                raise Violation("T4", "node %r was inserted although the edge to every examined neighbour collides" % (s,), {})
             if abs(cost[s] - best) > REL * max(1.0, abs(best)):
                 raise Violation("T6", "node %r stored cost %r via parent %r; the cheapest collision-free examined candidate gives %r via %r" % (
                     s, cost[s], parent[s], best, best_c[0]), {})
